@@ -182,6 +182,21 @@ class Z3Mem:
             return t
         return z3.Select(self.arr, a)
 
+    def whole(self, addr, n):
+        """the 32-bit term v if the n bytes at concrete address addr are exactly Extract(8i+7, 8i, v), i < n
+        (what a store of v's low n bytes left there); else None.  Lets a load hand back the stored term itself
+        instead of a byte-wise reassembly that the simplifier may or may not recognise as the same value."""
+        v = None
+        for i in range(n):
+            b = self.conc.get((addr + i) & M32)
+            if b is None or not z3.is_app_of(b, z3.Z3_OP_EXTRACT) or b.params() != [8 * i + 7, 8 * i]:
+                return None
+            if v is None:
+                v = b.arg(0)
+            elif not v.eq(b.arg(0)):
+                return None
+        return v if v is not None and v.size() == 32 else None
+
     def store_byte(self, addr, b, en=True):
         assert en is True
         a = z3.simplify(addr)
@@ -196,6 +211,7 @@ class Z3Mem:
 
 # ---------------------------------------------------------------------------------------------
 _DEC = {}
+LOADS = {"lb": (1, True), "lh": (2, True), "lw": (4, True), "lbu": (1, False), "lhu": (2, False)}
 MEMOPS = {"lb", "lh", "lw", "lbu", "lhu", "sb", "sh", "sw"}
 
 
@@ -281,7 +297,14 @@ def emulate(b, o, x, mem, on_ext, max_steps, wild=None, allowed=()):
         if e.system:
             raise MachineFault(f"system instruction {mn} at {pc:#x}")
         if e.wr and rd:
-            x[rd] = z3.simplify(e.val) if o.sym else e.val
+            val = e.val
+            if o.sym and base in LOADS:
+                n, signed = LOADS[base]
+                a = z3.simplify(x[rs1] + imm)
+                w = mem.whole(a.as_long(), n) if z3.is_bv_value(a) else None
+                if w is not None:        # same value as e.val, in the form it was stored
+                    val = w if n == 4 else (z3.SignExt if signed else z3.ZeroExt)(32 - 8 * n, z3.Extract(8 * n - 1, 0, w))
+            x[rd] = z3.simplify(val) if o.sym else val
         for (a, v) in e.stores:
             if wild is not None:
                 c = above_sp0(o, a, allowed)
